@@ -5,7 +5,7 @@
 EXTENDS BulkAbs
 VARIABLES st
 Init == st = InitStore
-Next == \E el \in Alphabet : Storable(st, AllGraphs, el) /\ st' = AddOne(st, el)
+Next == \E el \in Alphabet \cup RelabelAlphabet : Storable(st, AllGraphs, el) /\ st' = AddOne(st, el)
 Spec == Init /\ [][Next]_<<st>>
 EmitObs == Emit("obs", [state |-> st, obs |-> Obs(st)])
 =======================================================================
